@@ -175,6 +175,12 @@ type tLocker[T comparable] struct {
 // model list's identity and goes back to the pool when the matching Unlocks/RUnlocks returned;
 // the next list of that length then reuses the backing array with new contents.
 func (a *tLocker[T]) ks(ks []int) []T {
+	if len(ks) == 0 {
+		if ks == nil {
+			return nil
+		}
+		return []T{}
+	}
 	a.bmu.Lock()
 	defer a.bmu.Unlock()
 	if a.inUse == nil {
@@ -200,6 +206,9 @@ func (a *tLocker[T]) ks(ks []int) []T {
 }
 
 func (a *tLocker[T]) recycle(ks []int) {
+	if len(ks) == 0 {
+		return
+	}
 	a.bmu.Lock()
 	defer a.bmu.Unlock()
 	id := &ks[0]
@@ -828,6 +837,21 @@ func manyKeysCase(k *engine.Case) {
 	k.Nontrivial()
 	k.C.Max("keys_held_at_once", int64(n+1))
 	d := engine.NewDriver(Q, k)
+	if l.Multi() && r.Intn(2) == 0 {
+		// a multi-key call with no keys (a duplicate-free list like any other) takes and
+		// releases nothing
+		for _, empty := range [][]int{nil, {}} {
+			l.Locks(empty)
+			l.Unlocks(empty)
+			l.RLocks(empty)
+			l.RUnlocks(empty)
+		}
+		k.Count("empty_multi_key_calls", 1)
+		if e := l.Entries(); e != 0 {
+			k.Fail("residue", "multi-key calls with empty lists left %d per-key entries", e)
+			return
+		}
+	}
 	if hotWrite {
 		l.Lock(hot)
 	} else {
